@@ -372,15 +372,9 @@ func DecodeObject(r io.Reader) (ugo.Object, error) {
 			return nil, err
 		}
 
-		n := 1 + len(readBytes)
-		buf := make([]byte, n+int(value))
-		buf[0] = btype
-		copy(buf[1:], readBytes)
-
-		if value > 0 {
-			if _, err = io.ReadFull(r, buf[n:]); err != nil {
-				return nil, err
-			}
+		buf, err := readSized(r, append([]byte{btype}, readBytes...), value)
+		if err != nil {
+			return nil, err
 		}
 
 		switch btype {
@@ -1375,6 +1369,33 @@ func checkSize(r io.Reader, size int64) error {
 		return io.ErrUnexpectedEOF
 	}
 	return nil
+}
+
+// readSized returns prefix followed by the next size bytes of r. If r cannot
+// tell how much data it holds, the buffer grows with the data that is really
+// there instead of being allocated with the declared size.
+func readSized(r io.Reader, prefix []byte, size int64) ([]byte, error) {
+	n := len(prefix)
+	if _, ok := r.(interface{ Len() int }); ok {
+		// checkSize has compared size with the data
+		buf := make([]byte, n+int(size))
+		copy(buf, prefix)
+		if size > 0 {
+			if _, err := io.ReadFull(r, buf[n:]); err != nil {
+				return nil, err
+			}
+		}
+		return buf, nil
+	}
+	var b bytes.Buffer
+	b.Write(prefix)
+	if _, err := io.CopyN(&b, r, size); err != nil {
+		if err == io.EOF {
+			err = io.ErrUnexpectedEOF
+		}
+		return nil, err
+	}
+	return b.Bytes(), nil
 }
 
 // unreadBytes returns the unread portion of r without consuming it if r is a
